@@ -30,6 +30,9 @@ type Spec struct {
 	// goroutine storms or batch-level state); it must call w.RunOne or
 	// account evaluations itself.
 	Batch func(w *core.Worker, n int)
+	// HangClass refines the class of a CPU-hang violation from the input that
+	// was executing (so that distinct hangs are distinct findings).
+	HangClass func(input string) string
 	// Race says the worker must be the -race build.
 	Race bool
 }
